@@ -5,5 +5,6 @@ cd "$(dirname "$0")"
 export GOFLAGS=-mod=mod GOPROXY=off GOSUMDB=off GOTOOLCHAIN=local
 mkdir -p bin build evidence replays
 ./build.sh && ./build.sh vcheck-seam
+for b in vstore vevm vc10 vc11 vc12 vc13 vc14 vc15 vc17 vc19 vc20; do ./build.sh $b; done
 ./bin/vcheck smoke >/dev/null
 echo "setup ok"
